@@ -49,6 +49,7 @@ pub const VERSIONS_SUPPORTING_SIGNED_PEERS: &[[u8; 4]] = &[
 ];
 
 #[derive(Debug)]
+#[cfg_attr(mainline_verif, derive(Clone))]
 /// Side effect free Core, containing all the state and methods necessary
 /// for comprehensive and deterministic testing.
 pub struct Core {
@@ -525,6 +526,7 @@ fn supports_signed_peers(version: Option<[u8; 4]>) -> bool {
         .unwrap_or_default()
 }
 
+#[cfg_attr(mainline_verif, derive(Clone))]
 pub(crate) struct CachedIterativeQuery {
     closest_responding_nodes: Box<[Node]>,
     dht_size_estimate: f64,
